@@ -629,6 +629,35 @@ fn io_faults(_: &Ctx) -> Vec<RCase> {
     let mut c = RCase::explicit("zipatch", "io:truncated-stream", vec![head(vec![zero]), vec![], vec![0]]);
     c.note = "io:truncated-stream: AddFile declares 10 bytes but its blocks are empty".into();
     v.push(c);
+    // every command that cannot be carried out, once more between two AddFile commands that can: a failure in the middle of a
+    // patch is a failure of the patch, whatever succeeds after it
+    let ti = zp::target_info(0, -1, false, 0).len();
+    let hl = zp::file_header().len();
+    let el = zp::eof().len();
+    let ok1 = zp::file_op(b'A', 0, 13, 0, "extra/ok1.bin", &[blk.clone()]);
+    let ok2 = zp::file_op(b'A', 0, 13, 0, "extra/ok2.bin", &[blk.clone()]);
+    let mut more = vec![];
+    for c in v.iter().filter(|c| c.expect == "err" && (c.note.starts_with("io:unwritable-target") || c.note.starts_with("io:write-fault"))) {
+        let p = match &c.args {
+            Some(a) if !a.is_empty() => &a[0].0,
+            _ => continue,
+        };
+        if p.len() < hl + ti + el || p[..hl] != zp::file_header()[..] {
+            continue;
+        }
+        let mut b = p[..hl + ti].to_vec();
+        b.extend_from_slice(&ok1);
+        b.extend_from_slice(&p[hl + ti..p.len() - el]);
+        b.extend_from_slice(&ok2);
+        b.extend_from_slice(&zp::eof());
+        let mut d = c.clone();
+        if let Some(a) = d.args.as_mut() {
+            a[0] = crate::engine::util::Bytes(b);
+        }
+        d.note = format!("{} - between two AddFile commands that succeed", c.note);
+        more.push(d);
+    }
+    v.extend(more);
     v
 }
 
